@@ -437,6 +437,8 @@ class Watcher(object):
         # its pipes are about to be closed: stop watching them first, the
         # descriptor numbers are going to be reused by other files
         if self.stream_redirector:
+            # (not before its last output has been passed on)
+            self.stream_redirector.flush_redirections(process)
             self.stream_redirector.remove_redirections(process)
 
         timeout = 0.001
